@@ -791,7 +791,7 @@ def r20c(R):
 
 
 @rule('R20.e', ('C20',), 'a running script is not queued again; `running` is '
-      'asked under the name the job is queued with', floor=3,
+      'asked under the name the job is queued with', floor=7,
       decides='a script reported as running is not started a second time by a '
               'repeated request')
 def r20e(R):
@@ -812,20 +812,52 @@ def r20e(R):
     gsc = A.func(WEBAPP, 'WebApp.get_script_control')
     scope = [g for g in A.rs.reachable([gsc]) if g.cls is gsc.cls]
 
-    def attr_of(e):
-        # `<entry>.path` -> 'path' (the entry's local name does not matter)
-        return e.attr if isinstance(e, ast.Attribute) and \
-            isinstance(e.value, ast.Name) else norm(e)
-    asked = sorted(set(attr_of(c.args[0]) for g in scope for c in A.calls_in(g)
-                       if 'JobControl.is_running' in A.callee_names(g, c) and c.args))
+    def attr_of(g, e):
+        # `<entry>.path` -> '<entry>.path' (the entry's local name does not
+        # matter); a plain local is followed to its single binding; a bare
+        # name (the raw request path) stays a bare name
+        for _ in range(4):
+            if not isinstance(e, ast.Name):
+                break
+            defs = [n for n in walk_own(g.node) if isinstance(n, ast.Assign)
+                    and any(isinstance(t, ast.Name) and t.id == e.id
+                            for t in n.targets)]
+            if len(defs) != 1:
+                break
+            e = defs[0].value
+        if isinstance(e, ast.Attribute) and isinstance(e.value, ast.Name) \
+                and e.value.id != 'self':
+            return '<entry>.' + e.attr
+        return '<%s>' % norm(e)
+
+    def name_args(funcs, targets):
+        out = []
+        for g in funcs:
+            for c in A.calls_in(g):
+                for t in A.callees(g, c):
+                    if t.short in targets and 'name' in t.params:
+                        i = t.params.index('name') - 1
+                        e = c.args[i] if len(c.args) > i else next(
+                            (k.value for k in c.keywords if k.arg == 'name'), None)
+                        if e is not None:
+                            out.append((g, c, attr_of(g, e)))
+        return out
+    wa = A.cls(WEBAPP, 'WebApp')
+    every = name_args(wa.methods.values(),
+                      ('JobControl.is_running', 'JobControl.add_job',
+                       'JobControl.spawn_job', 'JobControl.insert_job',
+                       'JobControl.stop_job'))
+    kinds = sorted(set(k for _g, _c, k in every))
+    if len(every) < 4:
+        raise AnalysisError('R20.e: only %d job-name arguments found' % len(every))
+    for g, c, k in every:
+        R.check(g, c, k == '<entry>.path',
+                'the job name handed to %s is %s, the others are the entry\'s '
+                '(HTML-escaped) `.path`: for a manifest path containing & < > '
+                '" \' the two differ, so a running script is not recognised '
+                '(started again by a repeated request) or not found by stop'
+                % (norm(c.func), k), line=c.lineno)
     qs = A.func(WEBAPP, 'WebApp.queue_script')
-    queued = sorted(set(attr_of(c.args[1]) for c in A.calls_in(qs)
-                        if any(x in ('JobControl.add_job', 'JobControl.spawn_job')
-                               for x in A.callee_names(qs, c)) and len(c.args) > 1))
-    R.check(gsc, 'running = is_running(<entry>.%s); queued as <entry>.%s' % (
-        asked, queued), asked == ['path'] and queued == ['path'],
-            'the name asked of is_running differs from the name the job is '
-            'queued under: a running script is never recognised')
     bg = [n for n in A.cfg(qs).nodes if n.kind == 'cond'
           and norm(n.ast) == 'script_control.run_background']
     ok = False
